@@ -334,7 +334,11 @@ func (k *Kernel) Log(s string) {
 	k.LogHash = mixs(k.LogHash, s)
 	k.LogHash = mix(k.LogHash, uint64(k.Stats.Steps))
 	if k.cfg.Trace {
-		k.TraceLog = append(k.TraceLog, fmt.Sprintf("%d t=%v a%d %s", k.Stats.Steps, k.now, k.cur.ID, s))
+		id := -1 // logged after the run ended (post-run checks)
+		if k.cur != nil {
+			id = k.cur.ID
+		}
+		k.TraceLog = append(k.TraceLog, fmt.Sprintf("%d t=%v a%d %s", k.Stats.Steps, k.now, id, s))
 	}
 }
 
